@@ -21,7 +21,7 @@ for p in props:
             'evidence_file': 'evidence/%s.json' % pid,
             'replay_cmd_template': './check %s --replay {path}' % pid,
             'engine': 'glam-facts + lane',
-            'level_claimed': {'category': m.LEVEL, 'text': m.EXPLANATION, 'design_ref': 'DESIGN.md section 4/%s' % pid},
+            'level_claimed': {'category': m.LEVEL, 'text': m.EXPLANATION, 'design_ref': 'DESIGN.md section 4/%s (plan) and section 8 (as built)' % pid},
             'level_note': getattr(m, 'LEVEL_NOTE', 'Trusted: rustc front end/MIR/layout/const-eval; the intrinsic semantics table; the IEEE-exact rewrite set; see DESIGN 1.2.'),
             'technique': m.TECHNIQUE,
         })
